@@ -88,6 +88,19 @@ def fold(v, consts=None, subst=None):
         if v[1] == "Neg":
             return -a
         return None
+    if (k == "call" and _last(v[1]) == "len" and v[2]) or (k == "unop" and v[1] == "PtrMetadata"):
+        # length of `x[a..b]` / `x[..b]` with constant bounds (the indexing itself panics when the range does not fit, so on every
+        # path that goes on the slice has exactly that length)
+        s_ = v[2][0] if k == "call" else v[2]
+        if s_[0] == "call" and _last(s_[1]) in ("index", "index_mut") and len(s_[2]) == 2 and s_[2][1][0] == "agg":
+            rg = s_[2][1]
+            bnd = [fold(x, consts, subst) for x in rg[3]]
+            if rg[1].endswith("::Range") and len(bnd) == 2 and None not in bnd and bnd[1] >= bnd[0]:
+                return bnd[1] - bnd[0]
+            if rg[1].endswith("::RangeTo") and len(bnd) == 1 and bnd[0] is not None:
+                return bnd[0]
+        if k == "unop":
+            return None
     if k == "call":
         name = _last(v[1])
         args = [fold(a, consts, subst) for a in v[2]]
